@@ -61,6 +61,34 @@ def obs_frame(h, data):
     return f"(HFrame {hdr_lit(h)} {L.nlist(data)} (Some {L.nlist(enc)}) {dec})"
 
 
+_srig = None
+
+
+def obs_sent(h, data, packet):
+    """The bytes handed to Connection.send_data when the message goes through HsmsProtocol.send_message (send queue, packets of
+    send_packet_size): judged like a frame - their concatenation must be the E37 frame of the message."""
+    global _srig
+    if _srig is None:
+        _srig = protorig.HsmsRig(active=False, inert=True)
+        if not _srig.connect():
+            raise RuntimeError("rig did not settle after connect")
+    r = _srig
+    r.proto.send_packet_size = packet
+    del r.conn.sent[:]
+    ok = common.with_deadline(lambda: r.proto.send_message(HsmsMessage(mk_header(h), data)), 30.0)
+    if not r.settle():
+        raise RuntimeError("rig did not settle after send_message")
+    enc = b"".join(r.conn.sent)
+    if not ok:
+        return f"(HFrame {hdr_lit(h)} {L.nlist(data)} None None)", enc
+    try:
+        blk = HsmsBlock.decode(enc)
+        dec = f"(Some ({hdr_lit(hdr_of(blk.header))}, {L.nlist(blk.data)}))"
+    except Exception:  # noqa: BLE001
+        dec = "None"
+    return f"(HFrame {hdr_lit(h)} {L.nlist(data)} (Some {L.nlist(enc)}) {dec})", enc
+
+
 _rig = None
 
 
@@ -107,13 +135,33 @@ def frame_bytes(h, data):
     return HsmsMessage(mk_header(h), data).blocks[0].encode()
 
 
+BIG_SENT = []
+
+
 def gen_cases(rnd, tier):
+    global _srig
     lits = []
+    del BIG_SENT[:]
     for _ in range(250 if tier == "quick" else 2500):
         n = rnd.choice([0, 0, 1, 2, 10, 100, 255, 256, 1000])
         lits.append(("frame", obs_frame(rand_hdr(rnd, valid=rnd.random() < 0.85), c16.body_of(n, rnd))))
     for n in ([65535, 65536, 70000] if tier == "quick" else [65535, 65536, 70000, 1 << 20, (1 << 24) + 3]):
         lits.append(("frame", obs_frame(rand_hdr(rnd), c16.body_of(n, rnd))))
+    # the same frames as handed to Connection.send_data by HsmsProtocol.send_message: every frame length around one to four packets
+    for packet in (1, 5, 7, 16):
+        for n in range(0, 4 * packet + 3 if packet > 1 else 4):
+            lits.append(("sent", obs_sent(rand_hdr(rnd), c16.body_of(n, rnd), packet)[0]))
+    for n in ([3000] if tier == "quick" else [3000, 70000]):
+        lits.append(("sent", obs_sent(rand_hdr(rnd), c16.body_of(n, rnd), 1024)[0]))
+    # ... and with the shipped packet size: frames of one packet +- 1 byte, two packets + 5 (compared here, byte for byte, with the
+    # block encoding that the HFrame cases judge against E37)
+    default_packet = type(_srig.proto).send_packet_size
+    for flen in ([default_packet + 1] if tier == "quick" else [default_packet - 1, default_packet, default_packet + 1, 2 * default_packet + 5]):
+        h, body = rand_hdr(rnd), c16.body_of(max(0, flen - 14), rnd)
+        _lit, enc = obs_sent(h, body, default_packet)
+        BIG_SENT.append({"frame_length": flen, "packet": default_packet, "identical": enc == HsmsMessage(mk_header(h), body).blocks[0].encode(), "sent_length": len(enc)})
+    _srig.stop()
+    _srig = None
     # exhaustive cut points of short streams
     for nframes in (1, 2, 3):
         frames = [frame_bytes(rand_hdr(rnd), c16.body_of(rnd.choice([0, 0, 1, 3]), rnd)) for _ in range(nframes)]
@@ -199,6 +247,9 @@ def run(tier, replay=None):
         # the real receiver did not come to rest: report as a broken tie (hang), not silently
         report.violation({"kind": "broken-obligation", "obligation": f"correspondence C04: the implementation's receive path did not reach quiescence ({exc})"}, False, tag="hang")
         return report.finish()
+    for b in BIG_SENT:
+        if not b["identical"]:
+            report.violation({"kind": "counterexample", "what": "the bytes handed to Connection.send_data by send_message are not the frame of the message (block encoding, judged against E37 by the HFrame cases)", **b}, True, tag="bigsent")
     bad, stats = evaluate(lits, "c04")
     c16.decide_lits(report, "C04", lits, bad, stats, proof, SPEC_CODES, MODEL_CODES)
     import hashlib
@@ -210,7 +261,10 @@ def run(tier, replay=None):
                    + (",2^20,2^24+3" if tier == "thorough" else "") + "} through HsmsMessage...encode and HsmsBlock.decode; HStream = byte streams of 1-4 frames fed to a "
                    "real HsmsProtocol (own receiver and dispatcher threads, in-memory connection) segment by segment: every composition of streams up to 15 bytes ("
                    + ("2^14" if tier == "thorough" else "2^9") + " cap), every single cut position, single-byte feeding, all-in-one, random cuts, streams that stop inside a frame; "
-                   "observed after quiescence: delivered messages, buffered bytes, receiver parked; distinct = distinct literal")
+                   "observed after quiescence: delivered messages, buffered bytes, receiver parked; sent = the bytes handed to Connection.send_data by HsmsProtocol.send_message "
+                   "(send queue cut into packets of send_packet_size 1, 5, 7, 16, 1024: every body length up to four packets; judged as frames) and, with the shipped packet size, frames of "
+                   "one packet +- 1 byte compared with the block encoding; distinct = distinct literal")
+    cov["sent_with_shipped_packet_size"] = list(BIG_SENT)
     cov["correspondence"] = {k: v for k, v in stats.items() if k != "eval_errors"}
     cov["distribution"] = dict(Counter(k for k, _ in lits))
     cov["samples"] = [l[1][:300] for l in lits[:: max(1, len(lits) // 6)][:6]]
